@@ -474,10 +474,11 @@ Definition check_thm_type (th : thm) : bool :=
 
 Record fixes := mkFixes {
   fx_occurs_svar : bool;   (* C01 defect 1 *)
-  fx_var_inst : bool       (* C01 defect 2 *)
+  fx_var_inst : bool;      (* C01 defect 2 *)
+  fx_subst_pass : bool     (* C01 defect 3: one type instantiation for the whole sequent *)
 }.
-Definition fixes_off := mkFixes false false.
-Definition fixes_on := mkFixes true true.
+Definition fixes_off := mkFixes false false false.
+Definition fixes_on := mkFixes true true true.
 
 Section Rules.
 Variable fx : fixes.
@@ -577,11 +578,26 @@ Fixpoint subst_list (I : inst) (s : tyinst) (l : list tm) : option (list tm * ty
       end
   end.
 
+(* Repaired: a first pass over hypotheses and proposition only collects the
+   type instantiation (Term.subst mutates inst.tyinst); the second pass then
+   instantiates every part of the sequent with the complete one.  Historical:
+   a single pass, so earlier hypotheses saw a shorter type instantiation. *)
 Definition r_substitution (I : inst) (th : thm) : option thm :=
-  match subst_list I (i_ty I) (hyps th) with
-  | Some (hs, s') =>
-      match tm_subst (fx_var_inst fx) I s' (prop th) with
-      | Some (p, _) => Some (mkThm hs p)
+  let start :=
+    if fx_subst_pass fx then
+      match subst_list I (i_ty I) (hyps th ++ [prop th]) with
+      | Some (_, s0) => Some s0
+      | None => None
+      end
+    else Some (i_ty I) in
+  match start with
+  | Some s0 =>
+      match subst_list I s0 (hyps th) with
+      | Some (hs, s') =>
+          match tm_subst (fx_var_inst fx) I s' (prop th) with
+          | Some (p, _) => Some (mkThm hs p)
+          | None => None
+          end
       | None => None
       end
   | None => None
